@@ -291,7 +291,24 @@ func normSpecJSON(s *rspec.Spec) string {
 	if c.Linux != nil {
 		sort.Slice(c.Linux.Devices, func(i, j int) bool { return c.Linux.Devices[i].Path < c.Linux.Devices[j].Path })
 		if r := c.Linux.Resources; r != nil {
-			sort.Slice(r.Devices, func(i, j int) bool { return fmt.Sprint(r.Devices[i]) < fmt.Sprint(r.Devices[j]) })
+			// cgroup device rules are a side effect of adding a device which
+			// the generator does not revoke when the device is removed again;
+			// compare only the rules of devices that are present
+			var keep []rspec.LinuxDeviceCgroup
+			for _, d := range r.Devices {
+				for _, ld := range c.Linux.Devices {
+					if d.Major != nil && d.Minor != nil && *d.Major == ld.Major && *d.Minor == ld.Minor && d.Type == ld.Type {
+						keep = append(keep, d)
+						break
+					}
+				}
+			}
+			r.Devices = keep
+			if b, _ := json.Marshal(r); string(b) == "{}" {
+				c.Linux.Resources = nil // an empty resources section carries nothing
+			}
+			js := func(d rspec.LinuxDeviceCgroup) string { b, _ := json.Marshal(d); return string(b) }
+			sort.Slice(r.Devices, func(i, j int) bool { return js(r.Devices[i]) < js(r.Devices[j]) })
 			sort.Slice(r.HugepageLimits, func(i, j int) bool { return r.HugepageLimits[i].Pagesize < r.HugepageLimits[j].Pagesize })
 		}
 	}
@@ -320,7 +337,14 @@ func checkC03(prop string, c *Case, v *merge.Verdict, ir *implResult) []finding 
 	specB := orig()
 	gB := newGen(specB, recB)
 	for _, r := range c.Resps {
-		if err := gB.Adjust(items.BuildAdjustment(r.Adjust)); err != nil {
+		// A plugin's own adjustment uses the documented args marker (first
+		// element "" = "I replace the command line"); it is resolved by the
+		// runtime adaptation, the generator never sees it. Resolve it here.
+		adj := items.BuildAdjustment(r.Adjust)
+		if adj != nil && len(adj.Args) > 0 && adj.Args[0] == "" {
+			adj.Args = adj.Args[1:]
+		}
+		if err := gB.Adjust(adj); err != nil {
 			add("generator-error", "applying a plugin's own adjustment failed: %v", err)
 			return fs
 		}
@@ -352,9 +376,12 @@ func checkC03(prop string, c *Case, v *merge.Verdict, ir *implResult) []finding 
 			continue
 		}
 		if it.Kind == "mem.limit" && val == 0 {
-			if ov, ok := c.Req.Orig[it]; ok && ov != 0 {
-				val = ov // the generator ignores a zero memory limit
+			// the generator ignores a zero memory limit
+			ov, ok := c.Req.Orig[it]
+			if !ok {
+				continue
 			}
+			val = ov
 		}
 		exp[it] = val
 	}
